@@ -1,6 +1,7 @@
 """C16 -- periodic phase shift is a bijection of the unit cube."""
 from ..intervals import rule_M6
 from ..rowfacts import rule_M1
+from ..gaps import rule_M8
 
 LEVEL_TEXT = ('Abstract interpretation of PhaseShift.transform in an interval domain with '
               'open/closed ends and the documented float-modulo transfer function, in both '
@@ -12,10 +13,11 @@ def run(ctx):
     # where the shift is applied: forward on entry to contains(), inverse exactly once on
     # exit from sample() (also for proposals produced by pool workers)
     rule_M1(ctx)
+    rule_M8(ctx)      # the gaps cover the circle; the centre is opposite the largest one
     ctx.require(n >= 2, 'M6 evaluated only %d column stores (floor 2: forward and inverse)' % n)
     ctx.floor('M6', 5, 'closure obligations')
     ctx.assumptions += ['float a % 1 lies in [0,1) for a >= 0 and in [0,1] when a may be '
                         'negative (CPython/NumPy: -1e-18 % 1 == 1.0)',
                         'centers restored from a checkpoint satisfy the invariant of the writer']
-    ctx.not_decided += ['largest-gap placement of the centre (argmax over data)',
+    ctx.not_decided += ['that argmax/max of the gap vector pick the largest gap (NumPy)',
                         'exact undo up to rounding']
